@@ -32,6 +32,10 @@ type Options struct {
 	Ctx        context.Context
 	NoHook     bool
 	Vars       map[string]model.Value
+	// ObjVars are variables given as engine objects (SetVariable).
+	ObjVars map[string]object.Object
+	// Funcs are extra host functions (AddFunction).
+	Funcs map[string]func(args []object.Object) object.Object
 }
 
 // Obs is what one run showed.
@@ -125,6 +129,12 @@ func New(script string, opt Options) (ev *Evaluator, err error) {
 	}
 	for k, v := range opt.Vars {
 		e.SetVariable(k, ToObject(v))
+	}
+	for k, v := range opt.ObjVars {
+		e.SetVariable(k, v)
+	}
+	for k, f := range opt.Funcs {
+		e.AddFunction(k, f)
 	}
 	if opt.NoOptimize {
 		err = e.Prepare([]byte{evalfilter.NoOptimize})
